@@ -2,7 +2,8 @@
 // working tree with -tags llvm14,verif.
 //
 //	cls T              -> <kind> size=<Sizeof> align=<Alignof> n=<elementTypesCount> off2=<offset of member 1 of {T1,T2} | ->
-//	sig ARCH? R P...   -> ret=<..> params=<..>          (rewritten signature: transformFuncType)
+//	sig R P...         -> ret=<..> params=<..>          (rewritten signature: transformFuncType)
+//	cls64 T | clsret64 T -> the same classification by the arm64 classifier (TypeInfoArm64): <kind> size= align= n=
 //
 // Types: b h w q p f d = i8 i16 i32 i64 ptr float double; {..} struct; [N T] array; v = void (result only).
 // kind = void | direct | coerce <ty> | coerce2 <ty> <ty> | memory ; ty = iN | ptr | float | double | v2f32
@@ -109,6 +110,8 @@ func tyName(ctx llvm.Context, t llvm.Type) string {
 		return "double"
 	case llvm.VoidTypeKind:
 		return "void"
+	case llvm.ArrayTypeKind:
+		return "a" + strconv.Itoa(t.ArrayLength()) + tyName(ctx, t.ElementType())
 	case llvm.VectorTypeKind:
 		if t.VectorSize() == 2 && t.ElementType().TypeKind() == llvm.FloatTypeKind {
 			return "v2f32"
@@ -140,6 +143,9 @@ func main() {
 	prog := llssa.NewProgram(&llssa.Target{GOOS: "linux", GOARCH: arch})
 	td := prog.TargetData()
 	tr := cabi.NewTransformer(prog, "", "", cabi.ModeAllFunc, false)
+	prog64 := llssa.NewProgram(&llssa.Target{GOOS: "linux", GOARCH: "arm64"})
+	td64 := prog64.TargetData()
+	tr64 := cabi.NewTransformer(prog64, "", "", cabi.ModeAllFunc, false)
 	ctx := llvm.NewContext()
 	in := bufio.NewScanner(os.Stdin)
 	in.Buffer(make([]byte, 1<<20), 1<<20)
@@ -193,6 +199,38 @@ func main() {
 			var lv []string
 			leaves(ctx, t, &lv)
 			fmt.Fprintf(out, "%s size=%d align=%d n=%d off2=%s\n", kind, td.TypeAllocSize(t), td.ABITypeAlignment(t), len(lv), off2)
+		case "cls64", "clsret64":
+			if len(f) != 2 {
+				fmt.Fprintln(out, "bad-op")
+				continue
+			}
+			t, err := parseType(ctx, f[1])
+			if err != nil {
+				fmt.Fprintln(out, "bad-op", err)
+				continue
+			}
+			index := 1
+			if f[0] == "clsret64" {
+				index = 0
+			}
+			ft := llvm.FunctionType(ctx.VoidType(), []llvm.Type{t}, false)
+			info := tr64.GetTypeInfo(ctx, ft, t, index)
+			var kind string
+			switch info.Kind {
+			case cabi.AttrNone:
+				kind = "direct"
+			case cabi.AttrVoid:
+				kind = "void"
+			case cabi.AttrPointer:
+				kind = "memory"
+			case cabi.AttrWidthType:
+				kind = "coerce " + tyName(ctx, info.Type1)
+			default:
+				kind = "other" + strconv.Itoa(int(info.Kind))
+			}
+			var lv []string
+			leaves(ctx, t, &lv)
+			fmt.Fprintf(out, "%s size=%d align=%d n=%d\n", kind, td64.TypeAllocSize(t), td64.ABITypeAlignment(t), len(lv))
 		case "sig":
 			if len(f) < 2 {
 				fmt.Fprintln(out, "bad-op")
